@@ -1,6 +1,20 @@
 """C29 - automatic pickling of extension types round-trips (DESIGN 7/C29)."""
-import base64, hashlib, json, os, re
+import base64, hashlib, json, os, re, sys, time
 import cybuild
+
+_T0 = [time.time()]
+
+
+def tick(what):
+    if os.environ.get("C29_DEBUG"):
+        sys.stderr.write("[C29 %6.1fs] %s\n" % (time.time() - _T0[0], what))
+
+
+def debug_dump(ctx):
+    if os.environ.get("C29_DEBUG"):
+        with open(os.environ["C29_DEBUG"], "w") as f:
+            json.dump({"fails": ctx.prop_failures, "breaks": ctx.corr_breaks,
+                       "known": getattr(ctx, "known_hits", {})}, f, indent=1, default=str)
 
 TITLE = "Automatic pickling of extension types round-trips"
 EXTRACTS = ["Pickle"]
@@ -312,7 +326,7 @@ def gen_family(rng, fam_no, force=None):
             elif feat == "getstate":
                 c.getstate = True
             elif feat == "charp":
-                members.append((pool.pop(), "charp"))
+                members.append((pool.pop().strip("_") + "cp", "charp"))
         if feat == "structT" and d >= special_at:
             c.auto = True          # every class that sees the struct member must force it
         if feat == "offroot" and d == 0:
@@ -383,17 +397,20 @@ def get_attr(o, a):
     if how == "attr":
         return getattr(o, n)
     return getattr(o, "_get_" + n)()
-def snap(o, attrs):
+def snap(o, attrs, root=None):
     out = {}
+    root = o if root is None else root
+    if any(a[1] == "meth" for a in attrs):
+        junk = [bytes([65 + i % 20]) * n for i in range(40) for n in (70, 71, 72, 73)]
     for a in attrs:
         if a[1] == "none":
             continue
         try:
-            out[a[0]] = canon(get_attr(o, a), (o,))
+            out[a[0]] = canon(get_attr(o, a), (root,))
         except BaseException as e:
             out[a[0]] = "!EXC " + type(e).__name__
     d = getattr(o, "__dict__", None)
-    return out, (None if d is None else canon(d, (o,)))
+    return out, (None if d is None else "%d|%s" % (len(d), canon(d, (root,))))
 PYSUB = {}
 DFLT = {}
 def get_class(job):
@@ -441,7 +458,7 @@ def info(m, cls, o):
     s = base.__dict__.get("__setstate__")
     d["sst"] = getattr(s, "__name__", None) if s is not None else None
     try:
-        rv = o.__reduce__()
+        rv = o.__reduce_ex__(2)
         f = rv[0]
         d["rv"] = {"f": getattr(f, "__name__", "?"), "type_ok": rv[1][0] is type(o) if len(rv) > 1 and rv[1] else None,
                    "chk": rv[1][1] if len(rv[1]) > 1 else None,
@@ -475,7 +492,7 @@ def run_job(job):
             u0 = m.USER_CALLS[0]
             try:
                 o2 = do_op(o, op)
-                after, adict = snap(o2, job["attrs"])
+                after, adict = snap(o2, job["attrs"], o if op == "copy" else None)
                 res["ops"][op] = {"after": after, "adict": adict, "type_ok": type(o2) is type(o),
                                   "distinct": o2 is not o, "user": m.USER_CALLS[0] - u0}
             except BaseException as e:
@@ -667,7 +684,15 @@ def run(ctx):
         fam[0][1].append(Cls("E1", fam[0][1][0], [("b", "double")]))
         envfam[mn] = (fam, envbits)
         specs.append(dict(name=mn, source=module_source(fam, hdr), workdir=ctx.workdir, cflags=["-O0"]))
-    built = cybuild.build_many(specs, jobs=6)
+    _T0[0] = time.time()
+    lay_specs, lay_state = layout_prepare(ctx)
+    specs += lay_specs
+    import concurrent.futures as cf
+    with cf.ThreadPoolExecutor(max_workers=1) as ex:
+        ct_future = ex.submit(compile_time_run, ctx)
+        built = cybuild.build_many(specs, jobs=8)
+        ct_out = ct_future.result()
+    tick("built %d modules" % len(specs))
     for (so, err), sp in zip(built, specs):
         if err is not None:
             ctx.corr_break("build " + sp["name"], sp["name"], str(err)[:1500], "module builds")
@@ -696,6 +721,7 @@ def run(ctx):
                                               if TYPES[t][3] and t != "charp"}})
                     meta.append((mn, feat, c, ids, pysub, vf, dct, envbits))
     res = run_jobs(ctx.workdir, jobs, "rt")
+    tick("ran %d rt jobs" % len(jobs))
 
     # ---- model queries
     q_dec, q_eff, q_red, q_rt = [], [], [], []
@@ -835,7 +861,7 @@ def run(ctx):
                 if mod_after != o["after"]:
                     ctx.corr_break("pickle:rt_value", inp_op, o["after"], mod_after)
                 mdict = None if dict_s == "!" else len([] if dict_s == "-" else dict_s.split(","))
-                odict = None if o["adict"] is None else o["adict"].count(":")
+                odict = None if o["adict"] is None else int(o["adict"].split("|")[0])
                 if mdict != odict:
                     ctx.corr_break("pickle:rt_dict", inp_op, o["adict"], dict_s)
             elif rt_m.startswith("E TypeError"):
@@ -843,9 +869,14 @@ def run(ctx):
             # "E Other": user methods / CPython default - outside the model
     ctx.note("round-trip jobs: %d objects x %d operations" % (len(jobs), len(ops_all)))
 
+    tick("round trips compared")
     crafted_states(ctx, model, allmods, vals, fl)
-    layout_change(ctx, model, fl)
-    compile_time(ctx, model, fl)
+    tick("crafted done")
+    layout_change(ctx, model, fl, lay_state)
+    tick("layout done")
+    compile_time(ctx, model, fl, ct_out)
+    tick("compile-time done")
+    debug_dump(ctx)
 
 
 # --------------------------------------------------------------------------- crafted states
@@ -921,7 +952,7 @@ def crafted_states(ctx, model, allmods, vals, fl):
                 ctx.corr_break("pickle:unpickle_ok", inp, r, m)
             else:
                 mdict = m.split(" ")[2]
-                if (mdict == "!") != (r["adict"] is None) or (mdict not in ("!", "-")) != (r["adict"] not in (None, "dict{}")):
+                if (mdict == "!") != (r["adict"] is None) or (mdict not in ("!", "-")) != (r["adict"] not in (None, "0|dict{}")):
                     ctx.corr_break("pickle:unpickle_dict", inp, r, m)
 
 
@@ -938,7 +969,7 @@ def find_collision(limit=400000):
     return None
 
 
-def layout_change(ctx, model, fl):
+def layout_prepare(ctx):
     """the same module/class names built twice with different member lists; pickles written by build 1
     are loaded by build 2"""
     quick = ctx.tier == "quick"
@@ -992,12 +1023,15 @@ def layout_change(ctx, model, fl):
         return fams
     f1, f2 = mk(0), mk(1)
     d1, d2 = os.path.join(ctx.workdir, "lay1"), os.path.join(ctx.workdir, "lay2")
-    built = cybuild.build_many([dict(name="c29_lay", source=module_source(f1), workdir=d1, cflags=["-O0"]),
-                                dict(name="c29_lay", source=module_source(f2), workdir=d2, cflags=["-O0"])], jobs=2)
-    for so, err in built:
-        if err is not None:
-            ctx.corr_break("build c29_lay", "c29_lay", str(err)[:1500], "module builds")
-            return
+    specs = [dict(name="c29_lay", source=module_source(f1), workdir=d1, cflags=["-O0"]),
+             dict(name="c29_lay", source=module_source(f2), workdir=d2, cflags=["-O0"])]
+    return specs, (f1, f2, d1, d2)
+
+
+def layout_change(ctx, model, fl, state):
+    quick = ctx.tier == "quick"
+    O = "object"
+    f1, f2, d1, d2 = state
     vals = Values()
     jobs1, meta = [], []
     for (tag, cl1), (_, cl2) in zip(f1, f2):
